@@ -221,8 +221,8 @@ def badFlags (v : View) (h : Hdr) (payload : List Nat) : Bool :=
 def badLength (v : View) (h : Hdr) (payload : List Nat) : Bool :=
   -- a beginning segment inside a message
   (h.beg && v.remaining > 0)
-  -- data outside a message
-  || (!h.beg && v.remaining == 0 && payload.length > 0)
+  -- a continue / ending segment outside a message (with or without data)
+  || (!h.beg && !isAckOnly h && v.remaining == 0)
   -- more data than announced
   || (expected v h < payload.length)
   -- ending segment before the announced length is reached
